@@ -105,6 +105,32 @@ def run(chk):
                           "D2-" + c["fn"])
         elif isinstance(r, float):
             worst = max(worst, r)
+    # the same question for nesting depth: the validators run while a document is read do work polynomial in its size
+    depths = [4, 8, 16, 24] + ([40] if chk.tier == "thorough" else [])
+    ncases = [{"fmt": f, "depth": d} for f in ("composeinfo", "treeinfo") for d in depths]
+    ir = core.ImplRunner("rx", fn="impl_nesting", per_case_timeout=8.0)
+    try:
+        nres = ir.run(ncases, window=1)
+    finally:
+        ir.close()
+    base = {}
+    for c, r in zip(ncases, nres):
+        if not (isinstance(r, list) and len(r) == 3):
+            chk.violation("loading a %s whose variants nest %d deep (%d characters) did not finish within 8 s"
+                          % (c["fmt"], c["depth"], len(rx.nested_text(c["fmt"], c["depth"]))), c, "rx:nesting")
+            continue
+        if r[2] != "ok":
+            chk.violation("a legal %s whose variants nest %d deep was refused: %s" % (c["fmt"], c["depth"], r[2]), c, "rx:nesting")
+            continue
+        base.setdefault(c["fmt"], r[1])
+        growth = (c["depth"] / float(depths[0])) ** 3
+        if r[1] > base[c["fmt"]] * growth:
+            chk.violation("loading a %s whose variants nest %d deep runs the field validators %d times (depth %d: %d times): faster than "
+                          "cubic growth" % (c["fmt"], c["depth"], r[1], depths[0], base[c["fmt"]]), c, "rx:nesting")
+        worst = max(worst, r[0])
+    chk.add_cases(ncases, [True] * len(ncases))
+    chk.record_suite("rx:nesting", {"cases": len(ncases), "depths": depths,
+                                    "validator_calls": {"%s:%d" % (c["fmt"], c["depth"]): (r[1] if isinstance(r, list) and len(r) == 3 else None) for c, r in zip(ncases, nres)}})
     chk.add_cases(tcases, [True] * len(tcases))
     chk.record_suite("rx:timing", {"cases": len(tcases), "worst_seconds": round(worst, 4), "sizes": sizes})
     return chk.finish(
